@@ -973,3 +973,133 @@ pub fn c12(args: &Args) {
 
 #[allow(dead_code)]
 pub fn unused(_: BTreeMap<u8, u8>) {}
+
+// ---------------------------------------------------------------------------
+// C14 complement: the production connector (hyper over real loopback TCP),
+// fault free, heavily multiplexed: no swap, exactly once.
+// ---------------------------------------------------------------------------
+
+#[repr(C)]
+#[derive(Serialize, Deserialize, Archive, PartialEq, Debug, Clone)]
+#[archive(check_bytes)]
+pub struct Tagged {
+    pub id: u64,
+    pub delay_us: u32,
+    pub len: u32,
+}
+
+#[repr(C)]
+#[derive(Serialize, Deserialize, Archive, PartialEq, Debug, Clone)]
+#[archive(check_bytes)]
+pub struct TaggedReply {
+    pub id: u64,
+    pub payload: Vec<u8>,
+}
+
+pub struct TagSvc {
+    calls: Arc<Mutex<HashMap<u64, u32>>>,
+}
+
+impl RpcService for TagSvc {
+    fn register_handlers(r: &mut ServiceRegistry<Self>) {
+        r.add_handler::<Tagged>();
+    }
+}
+
+fn tag_payload(id: u64, len: u32) -> Vec<u8> {
+    (0..len).map(|i| (id as u32).wrapping_mul(2_654_435_761).wrapping_add(i) as u8).collect()
+}
+
+#[async_trait]
+impl Handler<Tagged> for TagSvc {
+    type Reply = TaggedReply;
+    async fn on_message(&self, m: Request<Tagged>) -> Result<TaggedReply, Status> {
+        let (id, d, l) = (m.id.value(), m.delay_us.value(), m.len.value());
+        *self.calls.lock().entry(id).or_insert(0) += 1;
+        if d > 0 {
+            tokio::time::sleep(Duration::from_micros(d as u64)).await;
+        }
+        Ok(TaggedReply { id, payload: tag_payload(id, l) })
+    }
+}
+
+pub fn c14_tcp(args: &Args) {
+    let mut report = Report::new(
+        args,
+        "E3-wire",
+        "complement to the turmoil simulations on the production connector: one real Server on loopback, several Channels, hundreds of concurrent requests multiplexed per HTTP/2 connection (unique ids, handler latency 0-3 ms so replies complete out of order, reply sizes 0 B..64 KiB), no faults: every reply carries the id and the payload computed for that very request, the handler ran exactly once per id. Non-trivial: every batch of concurrent requests; distinct = distinct batches.",
+    );
+    let seed = args.seed;
+    let batches = args.pick(60, 2_000);
+    let outs = block_on_real(8, async move {
+        let mut outs = Vec::new();
+        let addr = free_tcp_addr();
+        let server = match Server::listen(addr).await {
+            Ok(s) => s,
+            Err(e) => {
+                let mut o = CaseOut::default();
+                o.inconclusive = Some(format!("cannot listen: {e}"));
+                return vec![o];
+            },
+        };
+        let calls: Arc<Mutex<HashMap<u64, u32>>> = Default::default();
+        server.add_service(TagSvc { calls: calls.clone() });
+        let channels: Vec<Channel> = (0..3).map(|_| Channel::connect(addr)).collect();
+        let mut next_id = 1u64;
+        for b in 0..batches {
+            let mut rng = rng_for(seed, 0xC14_7C9, b);
+            let n = rng.gen_range(50..400);
+            let mut hs = Vec::new();
+            let first = next_id;
+            for _ in 0..n {
+                let id = next_id;
+                next_id += 1;
+                let client = RpcClient::<TagSvc>::new(channels[rng.gen_range(0..channels.len())].clone());
+                let (d, l) = (rng.gen_range(0..3_000u32), *[0u32, 1, 16, 100, 4_096, 65_536].choose(&mut rng).unwrap());
+                hs.push(tokio::spawn(async move {
+                    let r = client.send(&Tagged { id, delay_us: d, len: l }).await;
+                    (id, l, r.map(|v| (v.id.value(), v.payload.as_slice() == tag_payload(id, l).as_slice())).map_err(|e| format!("{:?}", e.code)))
+                }));
+            }
+            let mut out = CaseOut::default();
+            out.nontrivial = Some(hash_of(&("tcp-batch", b, n)));
+            for h in hs {
+                match h.await {
+                    Ok((id, l, Ok((rid, same)))) => {
+                        out.count("replies_checked", 1);
+                        if rid != id {
+                            out.violate("C14:reply-of-another-request:real-tcp", json!({"request": id, "reply_id": rid, "batch": b}));
+                        } else if !same {
+                            out.violate("C14:reply-payload-differs-from-what-the-handler-computed:real-tcp", json!({"request": id, "len": l, "batch": b}));
+                        }
+                    },
+                    Ok((id, _, Err(code))) => out.violate("C14:fault-free-request-failed:real-tcp", json!({"request": id, "code": code})),
+                    Err(e) => out.inconclusive = Some(format!("task failed: {e}")),
+                }
+            }
+            let c = calls.lock();
+            for id in first..next_id {
+                match c.get(&id).copied().unwrap_or(0) {
+                    1 => {},
+                    k => out.violate(if k == 0 { "C14:acknowledged-request-never-executed:real-tcp" } else { "C14:request-executed-more-than-once:real-tcp" }, json!({"request": id, "handler_invocations": k})),
+                }
+            }
+            drop(c);
+            out.count("concurrent_batches", 1);
+            if b == 0 {
+                out.sample = Some(json!({"batch": 0, "concurrent_requests": n, "channels": 3}));
+            }
+            if !out.violations.is_empty() {
+                out.replay = Some(json!({"seed": seed, "batch": b}));
+            }
+            outs.push(out);
+        }
+        server.shutdown();
+        outs
+    });
+    for o in outs {
+        report.absorb(o);
+    }
+    report.floor("replies_checked", 5_000);
+    report.finish(args);
+}
